@@ -1105,6 +1105,8 @@ func (c *Canonicalizer) writePhi(w *strings.Builder, i *ssa.Phi, instr ssa.Instr
 	type edge struct {
 		predID    string
 		predIndex int
+		raw       ssa.Value
+		pos       int
 		value     string
 	}
 	edges := make([]edge, 0, len(i.Edges))
@@ -1127,14 +1129,7 @@ func (c *Canonicalizer) writePhi(w *strings.Builder, i *ssa.Phi, instr ssa.Instr
 			}
 		}
 
-		valStr := c.NormalizeOperand(val, instr)
-		if overrides, ok := c.virtualPhiConstants[i]; ok {
-			if ov, ok := overrides[j]; ok {
-				valStr = ov
-			}
-		}
-
-		edges = append(edges, edge{predID: predID, predIndex: idx, value: valStr})
+		edges = append(edges, edge{predID: predID, predIndex: idx, raw: val, pos: j})
 	}
 
 	// Deterministic sorting logic for Phi edges
@@ -1146,6 +1141,19 @@ func (c *Canonicalizer) writePhi(w *strings.Builder, i *ssa.Phi, instr ssa.Instr
 		// Secondary: Lexicographical sort on ID (fallback)
 		return edges[a].predID < edges[b].predID
 	})
+
+	// Operands are normalised only now, in canonical edge order: a value that is first
+	// referenced by this Phi gets its register name here, and that name must not depend on
+	// the order in which the source happened to list the branches.
+	for k := range edges {
+		valStr := c.NormalizeOperand(edges[k].raw, instr)
+		if overrides, ok := c.virtualPhiConstants[i]; ok {
+			if ov, ok := overrides[edges[k].pos]; ok {
+				valStr = ov
+			}
+		}
+		edges[k].value = valStr
+	}
 
 	for _, e := range edges {
 		w.WriteString(fmt.Sprintf(" [%s: %s]", e.predID, e.value))
